@@ -62,7 +62,7 @@ def check_op(sc, obs, opi, add):
     full = ok and (op['op'] in ('map', 'map_unordered') or op.get('consume', 'all') == 'all')
     # a task whose argument could not be recognised (e.g. it was given to a function of another call) counts as index -1
     for c in tasks:
-        if c[5] is None:
+        if not isinstance(c[5], int) or isinstance(c[5], bool):
             c[5] = -1
     entered = collections.Counter(c[5] for c in tasks)
 
